@@ -16,7 +16,8 @@ export GOPROXY=off GOSUMDB=off GOTOOLCHAIN=local GOFLAGS=
 # every scratch copy has its own path, hence its own build-cache entries (~0.5 GB each): keep them out of the
 # default cache and drop them when they pile up (400 evaluations filled the disk once)
 export GOCACHE=/tmp/gocache-mut
-if [ -d "$GOCACHE" ] && [ "$(du -sm "$GOCACHE" 2>/dev/null | cut -f1)" -gt 30000 ]; then rm -rf "$GOCACHE"; fi
+# (never while another evaluation is using it)
+if [ -d "$GOCACHE" ] && [ "$(pgrep -fc 'scripts/mutant.sh')" -le 1 ] && [ "$(du -sm "$GOCACHE" 2>/dev/null | cut -f1)" -gt 30000 ]; then rm -rf "$GOCACHE"; fi
 mkdir -p "$GOCACHE"
 patch -p1 --dry-run < "$D/patch.diff" > /dev/null 2>&1 || { echo "RESULT patch does not apply"; exit 3; }
 FILES=$(grep '^+++ b/' "$D/patch.diff" | sed 's#^+++ b/##')
